@@ -122,7 +122,7 @@ type stubGeoField struct {
 }
 
 func (s *stubGeoField) GeoShape() (index.GeoJSON, error) { return nil, nil }
-func (s *stubGeoField) EncodedShape() []byte              { return s.shape }
+func (s *stubGeoField) EncodedShape() []byte             { return s.shape }
 
 func textOrGeoField(f *spec.FieldSpec) index.Field {
 	tf := textField(f)
